@@ -51,9 +51,10 @@ var (
 // VerifReset forgets all instance bookkeeping (called between scenarios).
 func VerifReset() {
 	verifInstSeq.Store(0)
-	verifInsts = sync.Map{}
-	verifAttempts = sync.Map{}
-	verifByConf = sync.Map{}
+	// goroutines left over from an earlier scenario may still use the maps: empty them in place
+	for _, m := range []*sync.Map{&verifInsts, &verifAttempts, &verifByConf} {
+		m.Range(func(k, _ any) bool { m.Delete(k); return true })
+	}
 }
 
 func verifInst(p *Process) int64 {
